@@ -198,6 +198,58 @@ func runC06(c *Ctx, r *Run) {
 				}
 			}
 		})
+		// no early acceptance: the only accepting return that skips the comparisons is "there is no previous hash"
+		{
+			var early []string
+			for _, ret := range acceptReturns(chk) {
+				// an accepting return is "late" when a comparison loop can precede it
+				late := false
+				allInstrs(chk, func(in ssa.Instruction) {
+					if isCallToPkgFunc(in, "bytes", "Equal") && blockReaches(in.Block(), ret.Block()) {
+						late = true
+					}
+					if call, ok := in.(*ssa.Call); ok && call.Call.StaticCallee() != nil && call.Call.StaticCallee().Pkg == chk.Pkg && blockReaches(in.Block(), ret.Block()) {
+						// comparison delegated to a helper of the package
+						if callsPkgFunc(call.Call.StaticCallee(), "bytes", "Equal") {
+							late = true
+						}
+					}
+				})
+				if late {
+					continue
+				}
+				// the governing branch: nearest dominating If
+				var gov *ssa.If
+				for d := ret.Block(); d != nil && gov == nil; d = d.Idom() {
+					if d != ret.Block() && len(d.Instrs) > 0 {
+						if iff, ok := d.Instrs[len(d.Instrs)-1].(*ssa.If); ok {
+							gov = iff
+						}
+					}
+				}
+				ok := false
+				if gov != nil {
+					if bo, isBo := gov.Cond.(*ssa.BinOp); isBo && (isNilConst(bo.Y) || isNilConst(bo.X)) {
+						side := bo.X
+						if isNilConst(bo.X) {
+							side = bo.Y
+						}
+						if lk, isLk := resolveLoad(side).(*ssa.Lookup); isLk && containsField(paramFields(chk, lk.X), hashesName) {
+							ok = true
+						}
+					}
+				}
+				if !ok {
+					cond := "?"
+					if gov != nil {
+						cond = path(gov.Cond)
+					}
+					early = append(early, c.Pos(ret.Pos())+" under "+cond)
+				}
+			}
+			r.Check("OB-E2", "pkg/protocol.(*MultiHandler).checkBroadcastHash|no-early-accept", c.Pos(chk.Pos()), len(early) == 0,
+				"the comparisons are skipped only when no previous-round hash exists", "checkBroadcastHash accepts without comparing anything at "+strings.Join(early, "; ")+": for the rounds that condition selects, an equivocating broadcaster is never detected")
+		}
 		r.Check("OB-E2", "pkg/protocol.(*MultiHandler).checkBroadcastHash|previous-round-hash", c.Pos(chk.Pos()), prevOK, "the reference hash is the one of round number-1", "the reference hash is not "+hashesName+"[number-1]")
 	}
 
@@ -431,7 +483,7 @@ func runC06(c *Ctx, r *Run) {
 	checkFirstCopyWins(c, r, "OB-E5")
 	r.Require("OB-E5", 2)
 	r.Require("OB-E1", 3)
-	r.Require("OB-E2", 3)
+	r.Require("OB-E2", 4)
 	r.Require("OB-E3", 1)
 	r.Require("OB-E4", 4)
 	r.Require("FS-2", 9)
